@@ -482,3 +482,76 @@ def mon_C19(run):
     if run.probes and run.probes[-1]["fin"]:
         if r["mesh_size"] != run.probes[-1]["mesh"]:
             run.v("C19", "mesh_size disagrees with the final state", "result-meshsize", (r["mesh_size"], run.probes[-1]["mesh"]))
+
+
+# ---------------------------------------------------------------- C19 copy isolation
+def _snapshot_result(r):
+    import copy
+
+    out = {}
+    for k in dict.keys(r):
+        if k in ("fun", "non_box_cons"):
+            continue
+        out[k] = copy.deepcopy(dict.__getitem__(r, k))
+    return out
+
+
+def _same(a, b):
+    if isinstance(a, np.ndarray) or isinstance(b, np.ndarray):
+        return isinstance(a, np.ndarray) and isinstance(b, np.ndarray) and a.shape == b.shape and np.array_equal(a, b, equal_nan=True)
+    if isinstance(a, float) and isinstance(b, float) and np.isnan(a) and np.isnan(b):
+        return True
+    return a == b
+
+
+def _mutate_arrays(obj, seen, depth=0):
+    """In-place perturbation of every float ndarray reachable from obj (attributes, dicts, lists)."""
+    if id(obj) in seen or depth > 4:
+        return 0
+    seen.add(id(obj))
+    n = 0
+    if isinstance(obj, np.ndarray):
+        if obj.dtype.kind == "f" and obj.flags.writeable and obj.size:
+            obj += 1.2345
+            return 1
+        if obj.dtype == object:
+            for v in obj.ravel():
+                n += _mutate_arrays(v, seen, depth + 1)
+        return n
+    if isinstance(obj, dict):
+        for v in list(dict.values(obj)):
+            n += _mutate_arrays(v, seen, depth + 1)
+        return n
+    if isinstance(obj, (list, tuple)):
+        for v in obj:
+            n += _mutate_arrays(v, seen, depth + 1)
+        return n
+    return n
+
+
+def mon_C19iso(run):
+    if not completed(run):
+        return
+    b, r = run.bads, run.result
+    snap = _snapshot_result(r)
+    seen = {id(r)}
+    n = 0
+    for name in ("u", "u_best", "x", "x0", "lower_bounds", "upper_bounds", "plausible_lower_bounds", "plausible_upper_bounds", "optim_state", "iteration_history"):
+        if hasattr(b, name):
+            n += _mutate_arrays(getattr(b, name), seen)
+    fl = b.function_logger
+    for name in ("X", "X_orig", "Y", "Y_orig", "S"):
+        if hasattr(fl, name):
+            n += _mutate_arrays(getattr(fl, name), seen)
+    run.stats["iso_arrays_mutated"] += n
+    for k, v in snap.items():
+        if not _same(dict.__getitem__(r, k), v):
+            run.v("C19", "result field changed when the optimiser's arrays were modified afterwards", "result-aliased/%s" % k, "")
+    if run.job.get("rerun"):
+        try:
+            b.optimize()
+        except BaseException:  # noqa  (whatever the second run does is not judged)
+            pass
+        for k, v in snap.items():
+            if not _same(dict.__getitem__(r, k), v):
+                run.v("C19", "result field changed by a later optimize() on the same instance", "result-changed-by-rerun/%s" % k, "")
